@@ -1542,12 +1542,17 @@ Proof.
 Qed.
 
 Example ex_405 :
-  exists st, spec (mkInput n_405 (Some [60]) None None [] [] ([(k_request_method, [60; 36; 98; 114])]) None [t_html]) =
+  let m := [60; 36; 98; 114] in
+  html_escape m = [38; 108; 116; 59; 36; 98; 114] /\
+  exists st, spec (mkInput n_405 (Some [60]) None None [] [] ([(k_request_method, m)]) None [t_html]) =
     Some (rmap (mkOutput st t_html cs_utf8)
       (utf8_bytes (H1 ++ st ++ H2 ++ st ++ H3 ++
-         (MNA1 ++ [38; 108; 116; 59; 36; 98; 114] ++ MNA2 ++ s_br_html ++ s_br_html ++ [10] ++ [38; 108; 116; 59]) ++ H4))).
+         (MNA1 ++ html_escape m ++ MNA2 ++ s_br_html ++ s_br_html ++ [10] ++
+          html_escape (or_empty (Some [60]))) ++ H4))).
 Proof.
-  apply (html_405_response _ [] [60; 36; 98; 114] []); try reflexivity.
+  intros m. split; [vm_compute; reflexivity|].
+  refine (html_405_response (mkInput n_405 (Some [60]) None None [] [] ([(k_request_method, m)]) None [t_html])
+            [] m [] eq_refl eq_refl eq_refl eq_refl _ _ _).
   - constructor.
   - constructor.
   - constructor; [right; not_in|constructor].
